@@ -61,6 +61,19 @@ func VerifSleeperState(s *Sleeper) (waitingG int, sharedEmpty, localEmpty, allEm
 	return waitingG, atomic.LoadPointer(&s.sharedList) == nil, s.localList == nil, s.allWakers == nil
 }
 
+// VerifWaitingG classifies waitingG only (one atomic load): safe to call while
+// the sleeper goroutine is running.
+func VerifWaitingG(s *Sleeper) int {
+	switch g := atomic.LoadUintptr(&s.waitingG); g {
+	case 0:
+		return VerifGNone
+	case preparingG:
+		return VerifGPreparing
+	default:
+		return VerifGParked
+	}
+}
+
 // VerifSleeperLists returns the wakers on sharedList (head first), localList
 // and allWakers, each cut after max elements (a corrupted list may be cyclic).
 // Same calling condition as VerifSleeperState.
